@@ -196,6 +196,10 @@ video_filter_thread(struct video_filter_s* self)
 Finalize:
     if (accumulator)
         channel_write_unmap(self->out);
+    // Everything this thread emits is committed now: the sink may stop once
+    // it has drained its queue.
+    if (self->sig_stop_sink)
+        self->sig_stop_sink(self);
     LOG("[stream: %d] PROCESSING: Exiting frame processing thread",
         self->stream_id);
     self->is_running = 0;
